@@ -12,6 +12,12 @@ NOT_APPLICABLE = {
 }
 
 CLAIMS = {
+    "C20": {
+        "text": "Decides the wrapper-discipline clauses on the wrappers REGENERATED from /repo's m4 templates plus the hand-written common file (1987 extern \"C\" definitions): every body is a catch-all function-try-block; handlers map each documented exception class to its documented code, notify with the same code, are never shadowed by a base-class handler and reset timeouts; no const_cast/reinterpret_cast/C-style cast in a wrapper; every new result is owned at once by the out-parameter, every delete applies to the handle; Boolean answers are `E ? 1 : 0` un-negated; every prototype of the public headers has exactly one definition; the C++ member applied to the first handle is the one named by the wrapper, operands keep their order, and no library operation is guarded by a test on argument data; PPL_* status variables mirror the same-named C++ enumerators. Necessary for 'faithful, exception-tight wrapper'; that handle contents equal the C++ results for all inputs is C01-C17 behind the wrapper and is NOT decided here.",
+        "design_ref": "DESIGN.md §3 C20",
+        "note": "trusts the m4 regeneration (byte-identical to the build on the unchanged tree) and the configure-produced instantiation list; C++ typing of to_const/to_nonconst enforces const-correctness once unsafe casts are excluded",
+        "technique": "custom AST rules (libTooling) over regenerated wrappers: handler-table, ownership path rule, who-may-cast allowlist, prototype/definition completeness, operand-order and name agreement",
+    },
     "C06": {
         "text": "Decides the incremental-invalidation clause, not the solver: after every write to a problem input (constraints, space dimension, integer variables, objective, optimisation mode; directly or through a same-object callee) the set of possible values of the cached status at every normal exit is inside the set allowed for that input (path exploration of CFG x status-value sets, guards `status != UNSATISFIABLE` etc. interpreted); every switch(status) handles all five states; const members never write inputs through the const_cast alias; the cached witness is returned only on the edge of a successful is_satisfiable()/solve(). Necessary for 'incremental = from scratch'. Status/optimum/witness correctness of the simplex and branch-and-bound arithmetic is NOT decided.",
         "design_ref": "DESIGN.md §3 C06",
